@@ -128,12 +128,13 @@ from . import e_typed_props
 
 
 @register('C12', 'other',
-          'Positive-scaling clause only: homogeneity-degree typing of every operation of the 28 tabled views over the value graph '
+          'Positive-scaling clause: homogeneity-degree typing of every operation of the 28 tabled views over the value graph '
           '(fixpoint over state cells): sums/comparisons/selections only between quantities of equal degree (literal 0 and '
           'sentinels are polymorphic, absolute constants such as epsilon are degree 0), transcendental functions only of '
-          'degree-0 arguments; the output degree equals the table (0 = unchanged, 1 = scales by a). ' + PARTIAL)
+          'degree-0 arguments; the output degree equals the table (0 = unchanged, 1 = scales by a). Offset clause for HLNormalizer, Vsct, NET and the Fisher '
+          'transform: shift-coefficient analysis of the values reported from the initial state (enumerated N). ' + PARTIAL)
 def c12(F, R, tier):
-    e_typed_props.run_c12(F, R)
+    e_typed_props.run_c12(F, R, tier)
 
 
 @register('C10', 'other',
